@@ -13,7 +13,8 @@ scheduler itself does follows the code as it is (built without the `ffi` feature
 * `run_queue : VecDeque<Box<VmGreenThread>>`  ↦ `runQueue : List (Thread T E)` (front = head)
 * `new_threads : Receiver<…>` (mpsc)          ↦ `newThreads` (FIFO; `SpawnTask` sends to its back)
 * `finished_main_thread`                      ↦ `finishedMain`
-* `Arc<Mutex<VecDeque<Value>>>` of a channel  ↦ `chans[c]` (the identity of the `Arc` is the index)
+* `Arc<Mutex<VecDeque<Message>>>` of a channel ↦ `chans[c]` (the identity of the `Arc` is the index; a message is
+  an abstract value `V` here — what it contains is the matter of `Abra.Heap`)
 * `new_thread_id()`                           ↦ `nextId`
 * `trace` is ghost state: one event per executed instruction, exactly what the `verif_sched` hook logs.
 
